@@ -139,6 +139,12 @@ fn b(x: bool) -> i64 {
 
 /// run function `f` on the input at one alignment
 fn run_one(f: &str, rc: &Recipe, dl: usize, align: usize) -> MRes {
+    run_one_fill(f, rc, dl, align, FILL8)
+}
+
+/// `fill8` = the byte pattern the destination holds before the call (C18: results must not depend on it)
+fn run_one_fill(f: &str, rc: &Recipe, dl: usize, align: usize, fill8: u8) -> MRes {
+    let fill16: u16 = (fill8 as u16) << 8 | fill8 as u16;
     let in8 = if rc.u16 { Vec::new() } else { rc.bytes() };
     let in16 = if rc.u16 { rc.units() } else { Vec::new() };
     let a8 = Aligned::new(&in8, align, 0xC9u8);
@@ -151,7 +157,7 @@ fn run_one(f: &str, rc: &Recipe, dl: usize, align: usize) -> MRes {
         let s16 = a16.slice();
         // helpers for destinations
         let d8 = |m: &mut MRes, call: &mut dyn FnMut(&mut [u8]) -> (Vec<i64>, usize), text: bool| {
-            let init: Vec<u8> = if text { filler(dl, 1 + (align % 4), align % 3).into_bytes() } else { vec![FILL8; dl] };
+            let init: Vec<u8> = if text { filler(dl, 1 + (align % 4), align % 3).into_bytes() } else { vec![fill8; dl] };
             let mut d = Aligned::new(&init, dalign, 0xC9u8);
             let (r, written) = call(d.slice_mut());
             m.r = r;
@@ -164,7 +170,7 @@ fn run_one(f: &str, rc: &Recipe, dl: usize, align: usize) -> MRes {
             m.guard = d.intact();
         };
         let d16 = |m: &mut MRes, call: &mut dyn FnMut(&mut [u16]) -> (Vec<i64>, usize)| {
-            let init: Vec<u16> = vec![FILL16; dl];
+            let init: Vec<u16> = vec![fill16; dl];
             let mut d = Aligned::new(&init, dalign, 0xC9C9u16);
             let (r, written) = call(d.slice_mut());
             m.r = r;
@@ -367,6 +373,16 @@ fn emit(cx: &mut Ctx, f: &str, rc: &Recipe, dl: i64) {
             alt.push(x);
         }
     }
+    // C18: the same call with the destination pre-filled 0x00 and 0xFF
+    let mut fillalt: Vec<MRes> = Vec::new();
+    if dl >= 0 && !f.contains("_to_str") {
+        for fb in [0x00u8, 0xFF] {
+            let x = run_one_fill(f, rc, d, 0, fb);
+            if !(x.r == base.r && x.out == base.out && x.panic == base.panic) {
+                fillalt.push(x);
+            }
+        }
+    }
     let h = cx.sh.begin();
     let mut s = String::new();
     let _ = write!(s, "{{\"ev\":\"M\",\"h\":{},\"fn\":\"{}\",\"in\":", h, f);
@@ -396,7 +412,7 @@ fn emit(cx: &mut Ctx, f: &str, rc: &Recipe, dl: i64) {
         }
         s.push(']');
     }
-    s.push_str("]}");
+    let _ = write!(s, "],\"fillalt\":{}}}", fillalt.len());
     cx.sh.line(&s);
 }
 
@@ -562,6 +578,54 @@ pub fn mem(cx: &mut Ctx, which: &str) {
             }
             if want("convert_latin1_to_str_partial") {
                 partials(cx, "convert_latin1_to_str_partial", &clean);
+            }
+        }
+    }
+    // valid endings: every concatenation of up to three characters of 1..4 bytes placed flush against the end of an
+    // ASCII buffer (the scalar tails of the validators / converters are entered with every residue)
+    {
+        let chars: [&[u8]; 4] = [&[0x61], &[0xC3, 0xA9], &[0xE2, 0x82, 0xAC], &[0xF0, 0x9F, 0x92, 0xA9]];
+        let mut seqs: Vec<Vec<u8>> = Vec::new();
+        for a in 0..4 {
+            seqs.push(chars[a].to_vec());
+            for b2 in 0..4 {
+                let mut v = chars[a].to_vec();
+                v.extend_from_slice(chars[b2]);
+                seqs.push(v.clone());
+                for c in 0..4 {
+                    let mut w = v.clone();
+                    w.extend_from_slice(chars[c]);
+                    seqs.push(w);
+                }
+            }
+        }
+        let mut kk = 0usize;
+        for &len in ls.iter() {
+            for sq in seqs.iter() {
+                if sq.len() > len {
+                    continue;
+                }
+                kk += 1;
+                for fill in [1usize, 2] {
+                    let mut rc = Recipe { u16: false, fill, len, patch: vec![] };
+                    // fill 2 (two-byte characters) must be re-aligned so that the patch starts on a character boundary
+                    if fill == 2 && (len - sq.len()) % 2 != 0 {
+                        continue;
+                    }
+                    for (i, &x) in sq.iter().enumerate() {
+                        rc.patch.push((len - sq.len() + i, x as u32));
+                    }
+                    for j in 0..2 {
+                        let f = UTF8_FNS[(kk + j * 3 + fill) % UTF8_FNS.len()];
+                        if want(f) {
+                            emit(cx, f, &rc, dl_for(f, len));
+                        }
+                        let f = STR_FNS[(kk + j + fill) % STR_FNS.len()];
+                        if want(f) {
+                            emit(cx, f, &rc, dl_for(f, len));
+                        }
+                    }
+                }
             }
         }
     }
